@@ -51,18 +51,24 @@ fn starve_case(rng: &mut Rng, seed: u64) -> Case {
         "x.do".into(),
         Rule {
             version: 0,
-            stmts: vec![Stmt::IfChange(vec!["s0".into()]), Stmt::Work(rng.range(1_000, 40_000))],
+            stmts: vec![Stmt::IfChange(vec!["s0".into()]), Stmt::Work(*rng.pick(&[50, 500, 5_000, 40_000]))],
         },
     ));
     let mut names = Vec::new();
     for i in 0..n_wait {
-        rules.push((
-            format!("w{}.do", i),
-            Rule {
-                version: 0,
-                stmts: vec![Stmt::IfChange(vec!["x".into()])],
-            },
-        ));
+        // a waiter that says `redo x` builds x again once it has the lock: the
+        // process that lost its token in the lock wait (and may go on with a
+        // borrowed one) then starts a job itself
+        let first = if rng.chance(1, 3) {
+            Stmt::Redo(vec!["x".into()])
+        } else {
+            Stmt::IfChange(vec!["x".into()])
+        };
+        let mut stmts = vec![first];
+        if rng.chance(1, 3) {
+            stmts.push(Stmt::Work(rng.range(1, 2_000)));
+        }
+        rules.push((format!("w{}.do", i), Rule { version: 0, stmts }));
         names.push(format!("w{}", i));
     }
     for i in 0..n_long {
@@ -70,7 +76,7 @@ fn starve_case(rng: &mut Rng, seed: u64) -> Case {
             format!("l{}.do", i),
             Rule {
                 version: 0,
-                stmts: vec![Stmt::IfChange(vec!["s0".into()]), Stmt::Work(rng.range(70_000, 200_000))],
+                stmts: vec![Stmt::IfChange(vec!["s0".into()]), Stmt::Work(if rng.chance(1, 2) { rng.range(70_000, 200_000) } else { rng.range(100, 3_000) })],
             },
         ));
         names.push(format!("l{}", i));
@@ -95,7 +101,7 @@ fn starve_case(rng: &mut Rng, seed: u64) -> Case {
         ..Default::default()
     };
     let ts: Vec<String> = if via_top { vec!["top".into()] } else { names };
-    let mut c = redo_cmd(rng, "redo", &ts, 1, 300);
+    let mut c = redo_cmd(rng, "redo", &ts, 1, 700);
     c.argv.retain(|a| !a.starts_with("-j"));
     c.argv.insert(1, format!("-j{}", rng.range(2, 3)));
     sc.history.push(Step::Cmds(vec![c]));
